@@ -1,6 +1,6 @@
 // C15: shape invariants of the tetrahedral kernel under additions (accepted and rejected) and under the inherited
 // deletion / swap / garbage-collection operations.
-//   harness_c15_adds  shard params: 0 = base, 1 = chunk of the case list (8 cases per query, selector dispatch)
+//   harness_c15_adds  shard params: 0 = base, 1 = chunk of the case list, 2 = cases per query (0: 8; selector dispatch)
 //   harness_c15_ops   shard params: 0 = base, 1 = deletion mode (bit0 deferred, bit1 fast), 2 = op kind (ops.h), 3 = chunk
 // All mutating calls get constant arguments (one case = one constant argument tuple); the selector is symbolic.
 #include "c15_common.h"
@@ -29,7 +29,9 @@ static bool ref_no_duplicates() {
 enum { N_ADD_CASES = 24 };
 
 static void do_case(unsigned i) {
-  const unsigned idx = v_param(1) * CASES_PER_QUERY + i;
+  const unsigned per = v_param(2) ? v_param(2) : (unsigned)CASES_PER_QUERY;    // cases of this query
+  if (i >= per) return;
+  const unsigned idx = v_param(1) * per + i;
   if (idx >= N_ADD_CASES) return;
   TetMesh m;
   build_tets(m, v_param(0));
